@@ -434,9 +434,9 @@ class Fitter:
         content: Fragment | None = None,
     ) -> None:
         top = self.frontier[self.depth]
-        top_match = top.match.match_type(type_)
-        assert top_match is not None
-        top.match = top_match
+        # Like upstream, tolerate a type that does not match here: `close` reopens the
+        # nodes of the target position, whose frontier entries are not matched against again.
+        top.match = cast(ContentMatch, top.match.match_type(type_))
         self.placed = add_to_fragment(
             self.placed,
             self.depth,
